@@ -23,7 +23,7 @@ LEVEL_TEXT = 'seeded exploration of pattern x name-set; set equality between rem
 LEVEL_NOTE = 'trusted: model/glob.py (backtracking matcher written from the fnmatch documentation), model/bag.py'
 
 NAMES = ['notes', 'notes.trashinfo', 'x.trashinfo.trashinfo', '.trashinfo', 'foo', 'Foo', 'FOO', 'foobar', 'fo', 'f', 'bar', 'a*b', 'a?b', '[x]', 'a[b', 'x]y', 'a-b', '!bang', 'file.txt',
-         'file.TXT', 'file.txt.bak', '.hidden', 'with space', 'new\nline', 'a', 'b', 'ab', 'abc', 'é', '*', '?', '-', 'a!b', '~', '~root']
+         'file.TXT', 'file.txt.bak', '.hidden', 'with space', 'new\nline', 'a', 'b', 'ab', 'abc', 'é', '*', '?', '-', 'a!b', '~', '~root', 'My%20File.pdf', 'a%2Ab', 'x%5B1%5D', '100%25']
 
 
 def shape(p):
@@ -53,6 +53,10 @@ def gen_pattern(rng, names, home):
     if r < 0.7:
         c = nm[0] if nm[0] not in '[]!-^' else 'f'
         return rng.choice(['[%s]*' % c, '[!%s]*' % c, '[a-f]*', '[A-Z]*', '[!a-z]*', '[fF]oo', '[[]*', '*[]]*', '[a-]*', '[]x]*'])
+    if r < 0.715:
+        # names that LOOK percent-escaped (browser downloads, copied URLs) are matched as they are, the name with the escape
+        # resolved is another name
+        return rng.choice(['My%20File.pdf', 'My File.pdf', 'My?File.pdf', '*%2[0A]*', 'a%2Ab', 'a[*]b', 'x[[]1[]]', 'x%5B*', '100%', '100%25', '*%*', 'My*'])
     if r < 0.74:
         # a pattern is not a shell word: a leading tilde is a literal character (a directory literally called '~' is the classic
         # accident of a quoted "~/build" in a script)
